@@ -16,10 +16,10 @@ WAKE = {"2.0": ("I_HEARTBEAT_RESPONSE", 22), "2.1": ("I_HEARTBEAT_RESPONSE", 22)
 
 def run(ctx: Ctx, chk) -> None:
     chk.assume("A1", "A3")
-    park1(ctx, chk)
-    wake1(ctx, chk)
-    flush_node(ctx, chk)
-    flush_once(ctx, chk)
+    chk.run_rule(park1, ctx)
+    chk.run_rule(wake1, ctx)
+    chk.run_rule(flush_node, ctx)
+    chk.run_rule(flush_once, ctx)
 
 
 def park1(ctx: Ctx, chk) -> None:
@@ -247,3 +247,9 @@ def flush_once(ctx: Ctx, chk) -> None:
                 chk.refute(rule, k, f"the flush re-sends with buffering {'enabled (default)' if flag in (True, 'default') else 'undetermined'}: the node is marked sleeping, so the command is parked again instead of written", ctx.loc(f, call))
             if not isinstance(ctx.prog.parents.get(call), ast.Await):
                 chk.refute(rule, fkey(f, call) + "::awaited", "the re-send coroutine is not awaited: nothing is written", ctx.loc(f, call))
+        chk.instance(rule)
+        if fl.removes and all(sb._inside(fl.loop, r.ast) for r in fl.removes):
+            chk.ok(rule, f"{f.fq}::removal", "the written entry is removed inside the loop (not written again at the next wake)", ctx.loc(f, fl.removes[0].ast))
+        else:
+            chk.refute(rule, f"{f.fq}::removal", "the flush does not remove the entries it writes: every later wake writes the same commands again", ctx.loc(f, fl.loop))
+    sb.none_propagation(ctx, chk, rule)
